@@ -201,6 +201,9 @@ func (h *Hist) afterStep(i int, op Op) {
 	if h.closed {
 		return
 	}
+	if h.Cfg.SparseReads && i%5 != 4 && i != len(h.Prog.Ops)-1 {
+		return
+	}
 	if os.Getenv("VERIF_DEBUGSHAPE") != "" {
 		st := h.stats()
 		fmt.Fprintf(os.Stderr, "SHAPE op%d top=%v mid=%v base=%v clean=%v persisted=%d pstate=%d | stats top=%d mid=%d base=%d clean=%d rounds=%d llnotify=%d plBeg=%d plEnd=%d\n", i, h.top, h.mid, h.base, h.clean, h.Persisted, h.pState,
@@ -255,12 +258,20 @@ func RunHistoryWith(t TB, p *Program, o Oracles, setup func(e *Env)) *Hist {
 	h.noteCompactions()
 	for i, op := range p.Ops {
 		if e.curStep != nil {
+			e.FS.mu.Lock()
 			*e.curStep = i
+			e.FS.mu.Unlock()
 		}
 		h.step(i, op)
 		h.afterStep(i, op)
 	}
+	if e.FS != nil {
+		e.FS.mu.Lock()
+	}
 	e.faultsOff = true // once operations succeed again, persistence must catch up
+	if e.FS != nil {
+		e.FS.mu.Unlock()
+	}
 	h.final()
 	return h
 }
